@@ -3,6 +3,8 @@ from pyvc.cdef import Contract, LoopSpec
 
 CAL = ('rec', ['SplineCalibrator', 'PolynomialCalibrator'])
 SCHEMA = {
+    'BinaryDataEncoding': {},
+    'StringDataEncoding': {'encoding': 'str'},
     'NumericDataEncoding': {
         'size_in_bits': 'int', 'encoding': 'str', 'byte_order': 'str',
         'default_calibrator': ('opt', CAL),
